@@ -645,7 +645,12 @@ def acyclic_by_construction(ctx, LF, field):
                     continue
                 if isinstance(n.value, ast.Constant) and n.value.value is None:
                     continue
-                ks = ctx.r.expr_classes(f, t.value) or _classes_by_type_id(ctx, f, t.value)
+                ks = ctx.r.expr_classes(f, t.value)
+                if ks:
+                    # a static class stands for its whole cone (the elements of `linkable_objs` are FortranObj)
+                    ks = {d for k_ in ks for d in ctx.m.cone(k_)}
+                else:
+                    ks = _classes_by_type_id(ctx, f, t.value)
                 if ks and gcls and not (ks & gcls):
                     continue  # an object no recursive getter follows this field from
                 nstores += 1
@@ -1119,7 +1124,12 @@ def r1(ctx, R):
             if getattr(e, "mixed", None):
                 R.violation("C20.R1", e.f.short, k, loc(e.f, e.call), f"the cycle {label} descends along `{e.via}` (acyclic by construction) *and* along {[m for m in e.mixed if m != e.via]}: chains that alternate between the two are not covered by either argument and may be cyclic")
             elif e.cls == "LINK":
-                R.violation("C20.R1", e.f.short, k, loc(e.f, e.call), f"recursive call follows the name-resolved link `{e.via}` ({LF.link.get(e.via, 'workspace lookup')}) with no cycle guard on the cycle {label}: a program whose `{e.via}` links form a cycle recurses until the interpreter limit")
+                why = ""
+                ung = g5_cache.get(e.via, (True, []))[1]
+                if ung:
+                    uf, ust = ung[0]
+                    why = f"; the field is not acyclic by construction: `{unparse(ust)[:70]}` in {uf.short} (line {ust.lineno}) stores a link without the negative answer of the chain walk" + (f" (and {len(ung) - 1} more)" if len(ung) > 1 else "")
+                R.violation("C20.R1", e.f.short, k, loc(e.f, e.call), f"recursive call follows the name-resolved link `{e.via}` ({LF.link.get(e.via, 'workspace lookup')}) with no cycle guard on the cycle {label}: a program whose `{e.via}` links form a cycle recurses until the interpreter limit{why}")
             else:
                 R.undecided("C20.R1", e.f.short, k, loc(e.f, e.call), f"recursive call through `{e.via}` whose origin could not be classified (cycle {label})")
         for e in es:
